@@ -120,7 +120,8 @@ def causal(evs: List[Ev]) -> Optional[str]:
     lk = links(evs)
     streams: Dict[int, List[Ev]] = {}
     for e in evs:
-        if is_device_activity(e):
+        if is_device_activity(e) and e.cat not in ("gpu_user_annotation", "cuda_profiler_range"):
+            # (GPU-side annotations / profiler ranges span the kernels of their stream: they are not activities of the stream)
             streams.setdefault(e.stream, []).append(e)
             h = lk.get(e.id)
             if h is not None and e.ts < byid[h].ts:
